@@ -382,7 +382,8 @@ class IborSingleCurve(DiscountCurve):
                     synthetic_deposit = copy.deepcopy(first_depo)
                     synthetic_deposit.start_dt = self.value_dt
                     synthetic_deposit.maturity_dt = first_depo.start_dt
-                    ibor_deposits.insert(0, synthetic_deposit)
+                    # a new list: the caller's list of deposits is left as it was
+                    ibor_deposits = [synthetic_deposit] + list(ibor_deposits)
                     num_depos += 1
 
         # Now determine which instruments are used
